@@ -822,6 +822,73 @@ static void sc_http(const Case &c) {
     if (kv.second.open) VV->fail("fd-leak", "socket left open after the request ended");
 }
 
+// ------------------------------------------------------------------ addresses / asprintf users
+static void sc_addr(const Case &c) {
+  static const char *ADDRS[] = {"[1.2.3.4]:80", "[::1]:443", "[fe80::1:2:3]:65535", "/var/run/some.sock", "[255.255.255.255]:1"};
+  for (auto &op : c) {
+    if (!VV->ok) break;
+    auto A = [&](size_t i) -> int64_t { return i < op.a.size() ? op.a[i] : 0; };
+    if (op.k == "human") {
+      OpScope sc;
+      char *s = s_humansize((uint64_t)A(2) * 1000003ULL);
+      if (!s)
+        MUST_BE_INJECTED(sc, "humansize");
+      else
+        free(s);
+      continue;
+    }
+    const char *a = ADDRS[((A(0) % 5) + 5) % 5];
+    void *sas;
+    {
+      OpScope sc;
+      sas = s_resolve(a);
+      if (!sas) {
+        MUST_BE_INJECTED(sc, "sock_resolve");
+        continue;
+      }
+    }
+    void *d = nullptr;
+    {
+      OpScope sc;
+      d = s_addr_dup(sas, 0);
+      if (!d)
+        MUST_BE_INJECTED(sc, "sock_addr_dup");
+      else if (s_addr_cmp(d, sas, 0) != 0)
+        VV->fail("addr-dup-differs", "sock_addr_dup returned a different address");
+    }
+    {
+      uint8_t *buf = nullptr;
+      size_t len = 0;
+      OpScope sc;
+      if (s_addr_serialize(sas, 0, &buf, &len) != 0)
+        MUST_BE_INJECTED(sc, "sock_addr_serialize");
+      else {
+        void *back = s_addr_deserialize(buf, len);
+        if (!back)
+          MUST_BE_INJECTED(sc, "sock_addr_deserialize");
+        else {
+          if (s_addr_cmp(back, sas, 0) != 0) VV->fail("addr-roundtrip", "serialize/deserialize changed the address");
+          s_addr_free(back);
+        }
+        free(buf);
+      }
+    }
+    {
+      OpScope sc;
+      char *p = s_addr_pretty(sas, 0);
+      if (!p)
+        MUST_BE_INJECTED(sc, "sock_addr_prettyprint");
+      else
+        free(p);
+    }
+    {
+      OpScope sc;
+      if (d) s_addr_free(d);
+      s_freelist(sas);
+    }
+  }
+}
+
 // ------------------------------------------------------------------ fault enumeration driver
 typedef void (*Scenario)(const Case &);
 struct ChildRes {
@@ -996,6 +1063,8 @@ int main(int argc, char **argv) {
      [](int) { return gen_ops({{5, "io"}, {1, "cancel"}, {4, "run"}}, 14, 7); }, sc_io);
   mk("netbuf", "buffered reader/writer init, wait (incl. buffer growth), write (incl. > 4096) and events_run; a reader/writer whose call failed is only released.",
      [](int) { return gen_ops({{2, "rinit"}, {3, "wait"}, {2, "winit"}, {3, "write"}, {4, "run"}}, 16, 9000); }, sc_netbuf);
+  mk("addr", "sock_resolve of IPv4/IPv6/Unix literals, sock_addr_dup/serialize/deserialize/prettyprint (asprintf) and humansize (asprintf).",
+     [](int) { return gen_ops({{5, "addr"}, {2, "human"}}, 8, 9); }, sc_addr);
   mk("http", "one http_request (4 headers, body) answered by a scripted response (interim 1xx, Content-Length or chunked, body 0..20000, limit at or above); the request is released by cancel unless it completed or died inside the loop.",
      [](int) {
        return rc::gen::exec([]() {
